@@ -306,6 +306,8 @@ def run(check, repo, tier):
     _rm.floor = lambda cond, message: check.floor(cond, message.replace("C08.", "C01<-C08."))
     c08.check_number(_rm, cr.program)
     c08.check_parameters(_rm, cr.program)
+    from .c04 import point_vector_rule
+    point_vector_rule(check, cr.program, "R6")
     check.analysed = dict(cr.stats, helper_paths=n1, gcodecore=core.stats)
     check.coverage["exhaustive"] = tier == "thorough"
     check.explanation = (
